@@ -242,8 +242,8 @@ def run(ctx, prop):
         log("BUILD FAILED (harness raftsim):\n" + out[-3000:])
         raise SystemExit(2)
     vlib.regen_consts("Raft", "raftsim")
-    proofs_ok, info = ctx.check_proofs(make_targets=["Raft/Proofs.vo", "Properties/%s.vo" % prop],
-                                       gate_paths=["Raft/", "Common", "Properties/%s" % prop])
+    proofs_ok, info = ctx.check_proofs(make_targets=["Raft/Proofs.vo", "Raft/ProofsLog.vo", "Raft/ProofsStore.vo", "Properties/%s.vo" % prop],
+                                       gate_paths=["Raft/", "RaftAbs/", "Common", "Properties/%s" % prop])
     mok, mout, _ = vlib.model_build("Raft")
     if not mok:
         log("MODEL BUILD FAILED:\n" + mout[-3000:])
@@ -354,6 +354,26 @@ def run(ctx, prop):
             absorb(summ)
             fails += collect_failures(prop, summ)
 
+    # ---- 4. the abstract protocol: traces of the real cluster through the extracted acceptor (coq/RaftAbs) ----
+    abs_cov = None
+    if not ctx.replay:
+        try:
+            import _raftabs
+            n_tr, n_steps, rejected = _raftabs.run_acceptor(ctx, ctx.tier)
+            abs_cov = dict(traces=n_tr, abstract_steps=n_steps, rejected=len(rejected))
+            for k in ("labels", "skipped", "skipped_events", "single_config_traces", "overlap_ok_traces", "accepted_traces"):
+                if k in _raftabs.LAST:
+                    abs_cov[k] = _raftabs.LAST[k]
+            total_traces += n_tr
+            for rj in rejected[:10]:
+                mism.append(("raftabs-acceptor:%s:%s" % (rj.get("trace"), rj.get("seq")), "%s (implementation trace)" % rj.get("event"),
+                             "rejected by the abstract protocol: %s" % rj.get("why")))
+        except ImportError:
+            notes.append("props/_raftabs.py not present: abstract-protocol acceptor not run")
+        except RuntimeError as ex:
+            log("RAFTABS BUILD FAILED:\n" + str(ex)[-3000:])
+            raise SystemExit(2)
+
     if fails:
         sim_fails = [f for f in fails if f["case"].get("scenario")]
         if sim_fails:
@@ -371,7 +391,8 @@ def run(ctx, prop):
         return fs
 
     vlib.standard_verdict(ctx, proofs_ok, [(m[0], m[1], m[2]) for m in mism], fails, search_fn=search,
-                          corr_name="coq/Raft model vs raft.raftLog/unstable/MemoryStorage/RocksStorage (raftsim -mode log); Go oracle vs Python oracle")
+                          corr_name="coq/Raft model vs raft.raftLog/unstable/MemoryStorage/RocksStorage (raftsim -mode log); Go oracle vs Python oracle; "
+                                    "coq/RaftAbs acceptor on traces of the real cluster")
     stats_keep = {k: v for k, v in stats_all.items()}
     ctx.finish(dict(
         traces_validated_against_impl=total_traces + nlogcases,
@@ -384,12 +405,15 @@ def run(ctx, prop):
         histogram=dict(events=hist, profiles=profiles, configs=configs, exercised=stats_keep, log_cases=nlogcases),
         mismatches=len(mism),
         process_ready_order=order,
+        abstract_protocol_acceptor=abs_cov,
         samples=samples[:6],
     ), assumptions=[
         "the driver executes node/raft.go processReady's operations in the order read from the source on every run (go/ast); the body of "
         "each operation is the driver's (storage object = what survives a crash; WAL/snapshot files are C05/C06's subject)",
         "hand-out is counted when the Ready's CommittedEntries reach the application (publish), as in production",
         "transport is the message multiset of the driver: loss, duplication, reordering, partitions; payloads are opaque 8-byte ids",
+        "abstract protocol (coq/RaftAbs): fixed-membership theorems have no hypothesis; the _reconf_partial ones assume Overlap, "
+        "which the acceptor tests on every trace but which is not proved for the fork's configuration-change handling",
     ])
 
 
